@@ -141,6 +141,9 @@ static void run(void)
 		return;
 	}
 
+	/* the record as the blackbox stores it: exactly the bytes the encoder reported, nothing readable behind them */
+	{ char *exact = malloc(ser_len ? ser_len : 1); memcpy(exact, ser_buf, ser_len); free(ser_buf); ser_buf = exact; }
+
 	/* 3. decode into exact-size buffers */
 	dcase = vp_choose(4, "decode buffer");
 	dcap = dcase == 0 ? 1 : dcase == 1 ? 16 : dcase == 2 ? (size_t)ref_len + 1 : 512;
